@@ -94,6 +94,10 @@ def replay_density(data):
                 bad.append("stockholder weight is not rho_a/(rho_a+rho_b+background) in [0,1]")
             if bg == 0.0 and not np.allclose(w + StockholderWeight(b, a).weights(pts), 1.0, atol=1e-5):
                 bad.append("complementary weights do not sum to one")
+            na = max(1, len(Z) // 2)
+            w2 = StockholderWeight.from_arrays(Z[:na], pos[:na], Z[na:], pos[na:], background=bg).weights(pts)
+            if not np.allclose(w2, want, rtol=1e-5):
+                bad.append("StockholderWeight.from_arrays(..., background=%g) is not rho_a/(rho_a+rho_b+background)" % bg)
     if data.get("_single_point"):
         # single-point kernels (used by the radial root finder) exist as callables only in the translated source
         for k in range(min(8, len(pts))):
@@ -154,7 +158,7 @@ def run(ctx):
               "uninterpreted positive value function; atomic numbers: all integers")
     ctx.assume("reals for float32/float64; the table grid is exactly uniform (the shipped grid deviates from uniform by < 3e-4 of a spacing, recorded below)")
     ctx.out_of_scope("float32 rounding (sum order at 1e-7 relative); points within 0.3 A of a nucleus; the numerical values of the table")
-    ctx.parallel_sections([("interp", part_interp), ("rho", part_rho), ("rows", part_rows)])
+    ctx.parallel_sections([("interp", part_interp), ("rho", part_rho), ("rows", part_rows), ("wrappers", part_wrappers)])
 
 
 def _setup(ex, nrows=1):
@@ -361,3 +365,79 @@ def part_rows(ctx):
                nontrivial=True, method="ground instances")
     if badz is not None or rows != 103:
         ctx.violation("row:binding", "atom with atomic number %s is not bound to table row Z-1 / not rejected" % badz, {"Z": badz if badz is not None else 1}, replay_row)
+
+
+def part_wrappers(ctx):
+    """density.py: what the Python wrappers hand to the kernels (symbolic background, symbolic positions): both construction
+    routes of StockholderWeight pass interior / exterior densities in this order and the background unchanged; weights()
+    passes the evaluation points through"""
+    md = load_shimmed("chmpy.interpolate.density")
+    log = []
+
+    class RecP:
+        def __init__(self, positions, domain, rho_data):
+            self.positions, self.rho_data = positions, rho_data
+
+        def rho(self, pts):
+            return ("rho", self, pts)
+
+    class RecS:
+        def __init__(self, a, b, *args, **kw):
+            log.append((a, b, args, kw))
+            self.a, self.b, self.bg = a, b, (kw.get("background", args[0] if args else "MISSING"))
+
+        def weights(self, pts):
+            return ("weights", self, pts)
+    md.cPromol, md.cStock = RecP, RecS
+    bg = Sym(z3.Real("bg"))
+    PA = np.array([[0.25, -0.5, 1.0]])                    # atom positions concrete (the constructor takes an SVD of them): the symbolic
+    PB = np.array([[1.5, 0.75, -0.25], [2.0, -1.25, 0.5]])  # quantities here are the background and the evaluation points
+    pts = np.array([[Sym(z3.Real("wp%d" % k)) for k in range(3)]], dtype=object)
+
+    class Pts:
+        """stands for an array of evaluation points: astype() hands back the same symbolic coordinates"""
+        def __init__(self, a):
+            self.a = a
+
+        def astype(self, *a, **k):
+            return self
+
+    def same(x, y):
+        x, y = np.asarray(x, dtype=float), np.asarray(y, dtype=float)
+        return x.shape == y.shape and bool(np.allclose(x, y, atol=1e-6))
+    ex = Explorer()
+    results = {}
+
+    def go():
+        out = {}
+        for route in ("constructor", "from_arrays"):
+            del log[:]
+            if route == "constructor":
+                sw = md.StockholderWeight(md.PromoleculeDensity((np.array([8]), PA)), md.PromoleculeDensity((np.array([1, 1]), PB)), background=bg)
+            else:
+                sw = md.StockholderWeight.from_arrays(np.array([8]), PA, np.array([1, 1]), PB, background=bg)
+            P = Pts(pts)
+            out[route] = (list(log), sw.weights(P), P)
+        return out
+    paths = ex.run(go)
+    ctx.add_paths(ex)
+    bad = None
+    for p in paths:
+        if p.exc is not None:
+            bad = "wrapper raises %s: %s" % (type(p.exc).__name__, p.exc)
+            break
+        for route, (lg, wres, P) in p.value.items():
+            ok = len(lg) == 1
+            if ok:
+                a, b, args, kw = lg[0]
+                ok = isinstance(a, RecP) and isinstance(b, RecP) and same(a.positions, PA) and same(b.positions, PB)
+                given = kw.get("background", args[0] if args else None)
+                okbg = isinstance(given, Sym) and z3.is_true(z3.simplify(given.t == bg.t))
+                okw = isinstance(wres, tuple) and wres[0] == "weights" and wres[2] is P
+            r = "holds" if (ok and okbg and okw) else "counterexample"
+            ctx.record("wrappers (%s): interior/exterior densities in order, background handed to the kernel unchanged (symbolic), weights() passes the points through" % route,
+                       r, nontrivial=True)
+            if r != "holds" and bad is None:
+                bad = "StockholderWeight via %s: %s" % (route, "densities misplaced" if not ok else ("background not handed to the kernel" if not okbg else "weights() does not evaluate at the given points"))
+    if bad:
+        ctx.violation("wrap:stockholder", bad, {"seed": 5}, replay_density)
